@@ -29,7 +29,6 @@ def unmarshal(t: type[T] | refs.ForwardRef | str, value: tp.Any) -> T:
     return unmarshalled
 
 
-@compat.cache
 def unmarshaller(
     t: type[T] | refs.ForwardRef | compat.TypeAliasType | str,
 ) -> routines.AbstractUnmarshaller[T]:
@@ -39,6 +38,17 @@ def unmarshaller(
         t: The type annotation to generate an unmarshaller for.
              May be a type, type alias, [`typing.ForwardRef`][], or string reference.
     """
+    # A string reference is resolved against the caller's frame, so the same text
+    #   may name different types for different callers: resolve before memoizing.
+    if isinstance(t, str):
+        t = refs.evaluate(refs.forwardref(t))
+    return _unmarshaller(t)
+
+
+@compat.cache
+def _unmarshaller(
+    t: type[T] | refs.ForwardRef | compat.TypeAliasType,
+) -> routines.AbstractUnmarshaller[T]:
     nodes = graph.static_order(t)
     context: ctx.TypeContext[routines.AbstractUnmarshaller] = ctx.TypeContext()
     if not nodes:
